@@ -17,8 +17,12 @@ COMMON_ASSUMPTIONS = [
 def profs(spec, mult):
     return [{"profile": name, "count": max(1, int(n * mult)), "seed_offset": 1000 * i} for i, (name, n) in enumerate(spec)]
 
+
+def with_spec(bs, spec):
+    return [dict(b, trace_spec=spec) for b in bs]
+
 PROFILES = {
-    "C01": [("pressure", 12), ("fill", 10), ("mix", 6), ("ttl", 4), ("lg-updrace", 20), ("lg-pressure", 4)],
+    "C01": [("pressure", 12), ("fill", 10), ("mix", 6), ("ttl", 4), ("lg-updrace", 20), ("lg-pressure", 4), ("hugefill", 8)],
     "C02": [("reads", 12), ("mix", 8), ("burst", 6), ("lg-reads", 4)],
     "C03": [("seq", 24), ("ttl", 8), ("lg-seq", 4), ("mix", 6), ("pressure", 5)],
     "C04": [("burst", 12), ("mix", 8), ("ttl", 5), ("lg-burst", 4), ("delrace", 10)],
@@ -32,7 +36,7 @@ PROFILES = {
     "C13": [("shutdown", 10), ("shutrace", 80), ("mix", 3), ("lg-shutdown", 5)],
     "C15": [("reads", 14), ("mix", 4), ("lg-reads", 4)],
     "C16": [("stats", 15), ("allhit", 6), ("mix", 6), ("lg-stats", 4)],
-    "C17": [("boundary", 20), ("evictrace", 14), ("mix", 5), ("pressure", 3), ("ttl", 3), ("lg-boundary", 4)],
+    "C17": [("boundary", 20), ("evictrace", 14), ("mix", 5), ("pressure", 3), ("ttl", 3), ("lg-boundary", 4), ("hugefill", 6)],
 }
 
 PLANS = {}
@@ -49,7 +53,7 @@ PLANS["C13"]["hang_is_violation"] = True
 PLANS["C13"]["locks"] = True            # lock events of the shutdown runs -> Locks.tla: no wait cycle may involve the shutdown sequence
 PLANS["C13"]["locks_about"] = "C_Shut"
 # free-running rounds in which shutdown() is called in the middle of the traffic: it must return, and every caller with it
-PLANS["C13"]["stress"] = {"quick": [{"rounds": 200, "threads": 4, "ops": 6000, "timeout_ms": 8000, "args": "--shutdown-mid"}],
+PLANS["C13"]["stress"] = {"quick": [{"rounds": 200, "threads": 6, "ops": 6000, "timeout_ms": 8000, "args": "--shutdown-mid"}],
                           "thorough": [{"rounds": 3000, "threads": 6, "ops": 6000, "timeout_ms": 15000, "args": "--shutdown-mid"}]}
 PLANS["C15"]["hang_is_violation"] = True
 
@@ -140,13 +144,19 @@ for p in ["C06", "C14"]:
     PLANS[p]["assumptions"] = PLANS[p]["assumptions"] + ["free-running 'hot key' rounds (no scheduler): a continuously read resident against never-read newcomers, each put judged by TraceHist.tla when the newcomer's own estimate (read through the cache's estimate function before and after the put) is 0 and the resident's was at least 4: a newcomer whose sketch positions coincide with the resident's shares its estimate, which is allowed over-counting"]
 HANDOVER_Q = {"name": "hist-handover", "cmd": "hist --mode handover --seed {seed} --rounds 60 --ops 3000", "trace_spec": "TraceHist"}
 HANDOVER_T = {"name": "hist-handover", "cmd": "hist --mode handover --seed {seed} --rounds 1500 --ops 3000", "trace_spec": "TraceHist"}
-for p in ["C12", "C18"]:
+for p in ["C12", "C18", "C13"]:
     d = PLANS[p].setdefault("direct", {"quick": [], "thorough": []})
     d["quick"] = d["quick"] + [HANDOVER_Q]
     d["thorough"] = d["thorough"] + [HANDOVER_T]
     PLANS[p]["assumptions"] = PLANS[p]["assumptions"] + ["free-running 'hand-over' rounds: a really sleeping task (thread park) awaits an acknowledgement that another task polled before; a sleeper that is not woken although the acknowledgement completed is reported (TraceHist.tla)"]
 CONTEND_Q = {"name": "hist-contend", "cmd": "hist --mode contend --seed {seed} --rounds 150 --ops 2000 --readers 3", "trace_spec": "TraceHist"}
 CONTEND_T = {"name": "hist-contend", "cmd": "hist --mode contend --seed {seed} --rounds 3000 --ops 2000 --readers 4", "trace_spec": "TraceHist"}
+# the acknowledgements of the real system: none may stay pending when everything is idle (judged in the system traces)
+PLANS["C12"]["profiles"] = {"quick": with_spec(profs([("delrace", 8), ("burst", 6), ("mix", 5)], 2), "TraceCacheD"),
+                            "thorough": with_spec(profs([("delrace", 8), ("burst", 6), ("mix", 5)], 14), "TraceCacheD")}
+# shutdown in the middle of free-running traffic also for C18 (every call returns)
+PLANS["C18"]["stress"] = {"quick": PLANS["C18"]["stress"]["quick"] + [{"rounds": 200, "threads": 6, "ops": 6000, "timeout_ms": 8000, "args": "--shutdown-mid"}],
+                          "thorough": PLANS["C18"]["stress"]["thorough"] + [{"rounds": 3000, "threads": 6, "ops": 6000, "timeout_ms": 15000, "args": "--shutdown-mid"}]}
 PLANS["C12"]["direct"]["quick"] = PLANS["C12"]["direct"]["quick"] + [CONTEND_Q]
 PLANS["C12"]["direct"]["thorough"] = PLANS["C12"]["direct"]["thorough"] + [CONTEND_T]
 for p in ["C07"]:
